@@ -396,6 +396,29 @@ class Interp:
             a = self.facts.adts.get(path)
             if a is not None:
                 cs = self.cursor_struct(path) if a['kind'] == 'Struct' else None
+                if cs is not None and not (cs[2] and (a.get('has_drop') or (owner_adt and self.facts.adts.get(owner_adt, {}).get('has_drop')))):
+                    # a borrowing front cursor { slots: &[MaybeUninit<_>] (or &mut), next: usize }: the entry state of a
+                    # borrowed slice iterator (its slots are covered by the container they belong to), cursor within
+                    # the slice; required again of every such value that survives a root (HANDLE at the exits)
+                    mid = self.new_map(st, fresh('$cap'), 'phantom', phantom=True)
+                    ms = st.maps[mid]
+                    hi = Term('$back.' + mid)
+                    nx = Term('$front.' + mid)      # (a quantity of the entry state: kept across loop heads)
+                    st.zone.touch(hi)
+                    st.zone.touch(nx)
+                    st.zone.add_le(0, nx)
+                    st.zone.add_le(nx, hi)
+                    st.zone.add_le(hi, ms.len)
+                    ftys = self.adt_field_tys(ty, 0)
+                    fields = []
+                    for i, ft in enumerate(ftys):
+                        if i == cs[0]:
+                            fields.append(('ref', cs[2], ('slice', mid, 0, hi)))
+                        elif i == cs[1]:
+                            fields.append(I(nx))
+                        else:
+                            fields.append(self.mk_unknown(st, ft, tag + (i,), gs, None, depth + 1))
+                    return ('adt', path, 0, tuple(fields))
                 if cs is not None and (a.get('has_drop') or (owner_adt and self.facts.adts.get(owner_adt, {}).get('has_drop'))):
                     # an owning front cursor spelled out as { slots: &mut [MaybeUninit<_>], next: usize }: the same
                     # entry state as for an owned slice iterator (positions relative to the slice; the handle owns
@@ -404,7 +427,7 @@ class Interp:
                     mid = self.new_map(st, fresh('$cap'), 'phantom', phantom=True)
                     ms = st.maps[mid]
                     hi = Term('$back.' + mid)
-                    nx = fresh('u')
+                    nx = Term('$front.' + mid)      # (a quantity of the entry state: kept across loop heads)
                     st.zone.touch(hi)
                     st.zone.touch(nx)
                     st.zone.add_le(0, nx)
